@@ -141,7 +141,7 @@ func seedsFor(k Kind, tier string) []mc.Seed[*StoreWorld] {
 				storeSeed("buffer-31-one-page", opAddRun(0, 32, 31, 1)),
 				storeSeed("buffer-33-one-page", opAddRun(0, 32, 32, 1), opAdd(0, 40)),
 				storeSeed("compacted-then-cleared", opAddRun(0, 0, 66, 1), opClear(0)),
-				storeSeed("far-pages", opAddW(0, 1<<20, 2), opAddW(0, -(1 << 20), 2)),
+				storeSeed("far-pages", opAddW(0, 1<<20, 2), opAddW(0, -(1<<20), 2)),
 			)
 		}
 	case 'L', 'H':
